@@ -18,6 +18,7 @@ LEVEL = "model_checking"
 
 STATION = 5
 NAMES = {1: "INIT", 2: "PREOP", 4: "SAFEOP", 8: "OP"}
+SUCC = {1: 2, 2: 4, 4: 8}
 
 
 class ScriptPolicy:
@@ -27,6 +28,8 @@ class ScriptPolicy:
     def __init__(self, script):
         self.d = list(script["d"])
         self.ep = script["ep"]
+        self.early = bool(script.get("am", 0))   # INIT|ack: flag off at once, old state for d polls
+        self.fall = -1
         self.nw = 0
         self.np = 0
         self.pend = None
@@ -35,6 +38,9 @@ class ScriptPolicy:
     def apply(term, req, ack):
         if term.al_err and not ack:
             return                      # refused: error not acknowledged
+        if not ack and req > term.al_state and req != SUCC.get(term.al_state):
+            term.al_err = True          # invalid requested state change
+            return
         if req in NAMES:
             term.al_state = req
         term.al_err = False
@@ -42,7 +48,13 @@ class ScriptPolicy:
     def __call__(self, term, req, ack):  # write to 0x120
         d = self.d[self.nw] if self.nw < len(self.d) else 0
         self.nw += 1
-        if d == 0:
+        if self.fall >= 0:              # waits behind the fall back to INIT
+            self.pend = [req, ack, d]
+        elif ack and self.early and d > 0:
+            term.al_err = False
+            self.fall = d
+            self.pend = None
+        elif d == 0:
             self.apply(term, req, ack)
             self.pend = None
         else:
@@ -53,6 +65,12 @@ class ScriptPolicy:
         if self.np == self.ep:
             term.al_err = True
             self.pend = None
+            self.fall = -1
+        elif self.fall > 0:
+            self.fall -= 1
+        elif self.fall == 0:
+            term.al_state = 1
+            self.fall = -1
         elif self.pend is not None:
             if self.pend[2] > 0:
                 self.pend[2] -= 1
@@ -119,7 +137,9 @@ def run(ctx):
     k = 2 if ctx.quick else 3
     # AL status bits above the error indicator the terminals show: none, bit 5 (device
     # identification loaded); thorough adds a reserved bit and a high-byte bit
-    hibits = (0, 0x20) if ctx.quick else (0, 0x20, 0x40, 0x8020)
+    # enumerations (k, bits): quick crosses the extra status bits with the delays up to 1 only
+    enums = [(2, (0,)), (1, (0x20,))] if ctx.quick else [(3, (0, 0x20)), (2, (0x40, 0x8020))]
+    hibits = tuple(h for _, hs in enums for h in hs)
     wd = ctx.workdir()
     # 1. the design: exhaustive model check of the composition, with its consequences
     T.write_cfg(wd, "mc.cfg", """SPECIFICATION Spec
@@ -138,26 +158,29 @@ CHECK_DEADLOCK FALSE
     ctx.tlc_stats(res)
     ctx.extra["mc_aldriver"] = dict(distinct=res.distinct, generated=res.generated, K=3)
     # 2. terminal scripts from TLC
-    T.write_cfg(wd, "scripts.cfg", f"""SPECIFICATION SSpec
-CONSTANTS K = {k}
-          HiBits = {{{", ".join(map(str, hibits))}}}
+    records = []
+    for kk, hs in enums:
+        T.write_cfg(wd, "scripts.cfg", f"""SPECIFICATION SSpec
+CONSTANTS K = {kk}
+          HiBits = {{{", ".join(map(str, hs))}}}
 INVARIANT Emit
 CHECK_DEADLOCK FALSE
 """)
-    res = T.require_clean(T.run(wd, "AlDriverScripts", "scripts.cfg", workers=1, timeout=900),
-                          "AlDriverScripts")
-    ctx.tlc_stats(res)
+        res = T.require_clean(T.run(wd, "AlDriverScripts", "scripts.cfg", workers=1, timeout=900),
+                              "AlDriverScripts")
+        ctx.tlc_stats(res)
+        records += T.printed_records(res, "SCRIPT")
     seen = set()
     scripts = []
-    for r in T.printed_records(res, "SCRIPT"):
+    for r in records:
         s = r[0]
-        key = (s["start"], s["err"], s["target"], tuple(s["d"]), s["ep"], s["hi"])
+        key = (s["start"], s["err"], s["target"], tuple(s["d"]), s["ep"], s["hi"], s["am"])
         if key not in seen:
             seen.add(key)
             scripts.append(s)
     if not scripts:
         raise T.MachineryError("no scripts enumerated")
-    scripts.sort(key=lambda s: (s["start"], s["err"], s["target"], s["d"], s["ep"], s["hi"]))
+    scripts.sort(key=lambda s: (s["start"], s["err"], s["target"], s["d"], s["ep"], s["hi"], s["am"]))
     # 3. play each on the real code, 4. TLC validates the recorded runs
     traces = [dict(target=s["target"], ev=play(s)) for s in scripts]
     T.write_cfg(wd, "trace.cfg", f"""SPECIFICATION TSpec
@@ -172,8 +195,9 @@ CHECK_DEADLOCK FALSE
     results = T.validate_traces(ctx, wd, "AlDriverTrace", "trace.cfg", traces, chunk=4000)
     ctx.exhaustive = True
     ctx.rule = (f"all terminal scripts within the bound k={k} (start state, error flag, each requested "
-                f"transition taking 0..{k} polls, an error at any poll, each target, AL status bits above the error indicator in "
-                f"{[hex(h) for h in hibits]}), enumerated by TLC; "
+                f"transition taking 0..{k} polls, an error at any poll, an acknowledgement taken late or early (flag off at once, old state "
+                f"shown while falling back to INIT), each target, AL status bits above the error indicator: "
+                f"{'; '.join(f'{[hex(h) for h in hs]} with delays 0..{kk}' for kk, hs in enums)}), enumerated by TLC; "
                 f"non-trivial = the master had to write AL control at least once")
     ctx.extra["k"] = k
     ctx.extra["hibits"] = list(hibits)
@@ -184,7 +208,7 @@ CHECK_DEADLOCK FALSE
         ev = t["ev"]
         writes = [e["val"] for e in ev if e["op"] == "w"]
         outcomes[ev[-1]["op"]] = outcomes.get(ev[-1]["op"], 0) + 1
-        ctx.evaluated((s["start"], s["err"], s["target"], tuple(s["d"]), s["ep"], s["hi"]),
+        ctx.evaluated((s["start"], s["err"], s["target"], tuple(s["d"]), s["ep"], s["hi"], s["am"]),
                       nontrivial=bool(writes))
         if len(ctx.samples) < 3 and len(writes) >= 3 and (s["ep"] or len(ctx.samples) < 2):
             ctx.sample(dict(script=s, ev=ev))
@@ -195,7 +219,7 @@ CHECK_DEADLOCK FALSE
             ctx.case_failed(case, (f"trace rejected by AlDriver at event {matched}: {bad}" if bad else
                                    f"invariant violated: {inv}")
                             + f" (start {NAMES[s['start']]}{'+err' if s['err'] else ''}, target "
-                              f"{NAMES[s['target']]}, delays {s['d']}, error at poll {s['ep']}, status bits {hex(s['hi'])})")
+                              f"{NAMES[s['target']]}, delays {s['d']}, error at poll {s['ep']}, status bits {hex(s['hi'])}, acknowledge taken {'early' if s['am'] else 'late'})")
     ctx.extra["outcomes"] = outcomes
 
 
